@@ -110,6 +110,22 @@ def prepare(cases, root):
             meas = '    /begin MEASUREMENT m1 "" UBYTE NO_COMPU_METHOD 1 1 0 255 /begin IF_DATA X 1 /end IF_DATA /end MEASUREMENT\n'
             text = HEAD + "    /begin A2ML\n" + directive(f) + "\n    /end A2ML\n" + meas + TAIL
             flat = HEAD + "    /begin A2ML\n" + AML + "\n    /end A2ML\n" + meas + TAIL
+        elif c["fam"] == "diag":
+            # main -> incA (-> incB): the innermost file holds an unknown keyword on its 3rd line
+            f = {"place": c["place"], "name": "incA.a2l", "sep": "/", "quoted": True}
+            cdir = os.path.join(src, *relpath(f)[:-1])
+            os.makedirs(cdir, exist_ok=True)
+            faulty = '    /begin MEASUREMENT m1 "" UBYTE NO_COMPU_METHOD 1 1 0 255\n      ECU_ADDRESS 0x10\n      UNKNOWN_KEYWORD_IN_INCLUDE 1\n    /end MEASUREMENT\n'
+            if c["level"] == 1:
+                with open(os.path.join(cdir, "incA.a2l"), "w") as fh:
+                    fh.write(faulty)
+            else:
+                with open(os.path.join(cdir, "incA.a2l"), "w") as fh:
+                    fh.write('    /include "incB.a2l"\n')
+                with open(os.path.join(cdir, "incB.a2l"), "w") as fh:
+                    fh.write(faulty)
+            text = HEAD + "    " + ELEM.format(i=5) + "\n" + "    " + directive(f) + "\n" + TAIL
+            flat = ""
         elif c["fam"] == "shared":
             q = (lambda n: f'"{n}"') if c["quoted"] else (lambda n: n)
             with open(os.path.join(src, "common.inc"), "w") as fh:
@@ -140,7 +156,7 @@ def prepare(cases, root):
             fh.write(text)
         shutil.copytree(src, dst)
         os.remove(os.path.join(dst, "main.a2l"))
-        prepared.append({"id": i, "main": os.path.join(src, "main.a2l"), "flat": flat, "outdir": dst})
+        prepared.append({"id": i, "main": os.path.join(src, "main.a2l"), "flat": flat, "outdir": dst, "lenient": c["fam"] == "diag"})
     return prepared
 
 
@@ -202,6 +218,12 @@ def judge(c, r, rep, prep):
     if r["load"] != "ok":
         bad("load", f"load failed: {r.get('error')}")
         return
+    if c["fam"] == "diag":
+        want_file = "incA.a2l" if c["level"] == 1 else "incB.a2l"
+        texts = r.get("log_texts", [])
+        if len(texts) != 1 or f"{want_file}:3:" not in texts[0]:
+            bad("diagnostic-file-line", f"the diagnostic for a problem on line 3 of {want_file} reads {texts}")
+        return
     if "flat_error" in r:
         vlib.tool_error(f"flattened text does not load: {r['flat_error']}")
     key = "eq_flat" if c["fam"] == "shape" else "eq_flat_after_merge_includes"
@@ -250,7 +272,7 @@ def run(tier, selftest):
     fams = {}
     for c in cases:
         fams[c["fam"]] = fams.get(c["fam"], 0) + 1
-    if set(fams) != {"shape", "fault", "a2ml", "ifdata", "shared"}:
+    if set(fams) != {"shape", "fault", "a2ml", "ifdata", "shared", "diag"}:
         vlib.tool_error(f"vacuity: families {fams}")
     root = os.path.join(vlib.scratch(), "include_trees")
     os.makedirs(root)
